@@ -244,6 +244,16 @@ def check(pid, tier, seed, jobs, out=print):
                        'shrink_execs': used, 'found_at': {'seed': seed, 'tier': tier, 'index': v['index']}}, f,
                       indent=1, default=_default)
         ok, log = confirm_fresh(path, k)
+        if not ok and small is not scn:
+            # the minimised scenario may lean on state that earlier executions left in THIS process (a cache the change
+            # under test introduced, say): fall back to the scenario as generated, which is a function of the seed alone
+            res0 = prop.execute(scn)
+            vv0 = [x for x in res0['violations'] if vkey(x) == k] or vv
+            with open(path, 'w') as f:
+                json.dump({'property': pid, 'violation': vv0[0], 'key': k, 'digest': res0['digest'], 'scenario': scn,
+                           'shrink_execs': used, 'minimised': False,
+                           'found_at': {'seed': seed, 'tier': tier, 'index': v['index']}}, f, indent=1, default=_default)
+            ok, log = confirm_fresh(path, k)
         if ok:
             out('VIOLATION property=%s replay=%s' % (pid, path))
             out('  %s: %s' % (k, str(vv[0].get('detail', ''))[:600]))
